@@ -196,7 +196,8 @@ fn build(w: &mut World, d: &Value) -> Built {
             (v, derived)
         }
         "Register" | "RegisterWithPayment" => {
-            let base = if victim { register_base(&stranger, slot) } else { register_base(&owner, slot) };
+            // base "alt": the same address, but a base register whose owner-signed permissions differ from the held one
+            let base = if victim { register_base(&stranger, slot) } else if st(&d["base"], "std") == "alt" { register_base_alt(&owner, slot) } else { register_base(&owner, slot) };
             let mut ops = vec![];
             for o in d["ops"].as_array().cloned().unwrap_or_default() {
                 let sig = st(&o["sig"], "ok");
